@@ -71,7 +71,7 @@ def make_cases(ctx, rng):
         if not decoys and not tie_free(rows, nk):
             decoys = True
         n = len(rows)
-        cases.append({"kind": "assign", "colls": [{"rows": rows}], "extra_levels": ["prec"] if nk == 2 else [],
+        cases.append({"kind": "assign", "colls": [{"rows": rows}], "extra_levels": ([["prec"], ["mod"]][idx % 2]) if nk == 2 else [],
                       "dedup": dedup, "rollup": rollup, "decoys": decoys, "chunk": 1 + (idx // 8) % (n + 1),
                       "merge_chunk": [1, 2, 20000][(idx // 5) % 3],
                       "fmt": "parquet" if (idx // 16) % 4 == 3 else "pin", "workers": 1 + (idx // 7) % 3})
@@ -108,9 +108,12 @@ def make_cases(ctx, rng):
         for c in range(k):
             t = tables[int(rng.integers(0, len(tables)))]
             rows = table_from_tlc(t, rng, id0=id0, second_key=True)
+            if j % 3 == 2:
+                for r in rows:
+                    r["key"].append(int(rng.integers(1, 3)))
             colls.append({"rows": rows})
             id0 += 10
-        cases.append({"kind": "rolluptool", "colls": colls, "extra_levels": ["prec"], "dedup": bool(j % 2),
+        cases.append({"kind": "rolluptool", "colls": colls, "extra_levels": [["prec"], ["mod"], ["mod", "prec"]][j % 3], "dedup": bool(j % 2),
                       "chunk": 1 + j % 5, "fmt": "pin", "prefixes": ["a", "b", "c"][:k], "workers": 1})
     return cases
 
